@@ -109,6 +109,10 @@ def custom_case(draw, tier="quick"):
             q = [s[:6] for s in q]
         case["seqs2"] = q
     case["maxc"] = draw(st.sampled_from(["inf", "inf", "0", "0.5", "1", "1.5", "2", "2.5", "3", "4", "5.5", "6", "9"]))
+    if name == "tenths":
+        case["maxc"] = draw(st.sampled_from(["0.3", "0.3", "0.7", "0.8", "0.1", "0.2", "inf"]))
+        if not small:
+            case["k"] = draw(st.sampled_from([3, 3, 2]))
     return case
 
 
